@@ -151,6 +151,12 @@ def order_family(full):
             "write-in-loop": [["do j = 1, 2", "  a(i) = c(i) + j", "enddo"], [f"b(i) = {A} * 2"]],
             "three": [["a(i) = c(i) + i"], [f"b(i) = {A} * 2"], ["c(i) = b(i) + 1"]],
         }
+        # write and other access in the two branches of ONE IfBlock (never in the same iteration, but in different ones)
+        shapes["branches"] = [["if (c(i) > 2) then", "  a(i) = c(i) + i", "else", f"  b(i) = {A}", "endif"]]
+        shapes["branches-swapped"] = [["if (c(i) > 2) then", f"  b(i) = {A}", "else", "  a(i) = c(i) + i", "endif"]]
+        # two writes to different rows of m; the read meets only ONE of them (row k): every write must be an outer access
+        for k in ((1, 2) if full else (2,)):
+            shapes[f"second-write:k={k}"] = [["m(1, i) = b(i)"], ["m(2, i) = c(i)"], [f"a(i) = m({k}, {off(d)}) + 1"]]
         if d != 0:
             shapes["write-write"] = [["a(i) = c(i)"], [f"{A} = b(i)"]]
             shapes["write-write-if"] = [["a(i) = c(i)"], ["if (c(i) > 2) then", f"  {A} = b(i)", "endif"]]
